@@ -6,7 +6,8 @@
 2. `sym & mask` realised the symbolic int unless mask+1 is a power of two.  clikit tests flag words
    with `& 2`, `& 4`, `& 2048` ...: thousands of enumerated paths instead of one symbolic branch.
    A concrete non-negative mask is decomposed bitwise with // and %, exact for all Python ints.
-Both patches carry self-tests in harness/selftest.py which must be CONFIRMED.
+3. `sym | mask` likewise: a | m == a + m - (a & m) for a concrete non-negative mask.
+All patches carry self-tests in harness/selftest.py which must be CONFIRMED.
 """
 from crosshair import simplestructs as _ss
 from crosshair.libimpl import builtinslib as _bl
@@ -50,6 +51,26 @@ def _rand(self, other):
     return _orig_rand(self, other)
 
 
+_orig_or = _bl.SymbolicInt.__or__
+_orig_ror = _bl.SymbolicInt.__ror__
+
+
+def _or(self, other):
+    with _NT():
+        conc = type(other) is int and other >= 0
+    if conc:
+        return self + other - _bit_and(self, other)      # a | m == a + m - (a & m)
+    return _orig_or(self, other)
+
+
+def _ror(self, other):
+    with _NT():
+        conc = type(other) is int and other >= 0
+    if conc:
+        return self + other - _bit_and(self, other)
+    return _orig_ror(self, other)
+
+
 _applied = False
 
 
@@ -60,4 +81,6 @@ def apply():
     _ss.ShellMutableMap.copy = _copy
     _bl.SymbolicInt.__and__ = _and
     _bl.SymbolicInt.__rand__ = _rand
+    _bl.SymbolicInt.__or__ = _or
+    _bl.SymbolicInt.__ror__ = _ror
     _applied = True
